@@ -132,6 +132,88 @@ func subjects(maxLen int) []string {
 	return out
 }
 
+// escapeSweep: every escape that denotes one code point, by value, in five contexts, against every
+// single code point of a dense range plus the neighbours of its value (the statement names the
+// \u \x \c escapes explicitly; the atom list above carries only one or two of each).
+type escCase struct {
+	pats []string
+	subs []string
+}
+
+func escapeSweep(thorough bool) []escCase {
+	type esc struct {
+		text string
+		v    rune
+	}
+	var es []esc
+	for l := 'A'; l <= 'Z'; l++ {
+		es = append(es, esc{bs + "c" + string(l), l % 32}, esc{bs + "c" + string(l+32), l % 32})
+	}
+	for v := 0; v < 256; v++ {
+		es = append(es, esc{fmt.Sprintf("%sx%02x", bs, v), rune(v)}, esc{fmt.Sprintf("%su%04X", bs, v), rune(v)}, esc{fmt.Sprintf("%su{%x}", bs, v), rune(v)})
+		if v >= 0xa0 || v&0xf >= 10 {
+			es = append(es, esc{fmt.Sprintf("%sx%02X", bs, v), rune(v)})
+		}
+	}
+	for _, v := range []rune{0x100, 0x17f, 0x7ff, 0x800, 0xfff, 0x1000, 0x2028, 0x2029, 0xd7ff, 0xe000, 0xfeff, 0xfffd, 0xffff} {
+		es = append(es, esc{fmt.Sprintf("%su%04x", bs, v), v}, esc{fmt.Sprintf("%su{%X}", bs, v), v}, esc{fmt.Sprintf("%su{%06x}", bs, v), v})
+	}
+	for _, v := range []rune{0x10000, 0x1f600, 0x20000, 0xfffff, 0x100000, 0x10ffff} {
+		es = append(es, esc{fmt.Sprintf("%su{%x}", bs, v), v}, esc{fmt.Sprintf("%su{%08X}", bs, v), v})
+	}
+	for _, c := range "^$" + bs + ".*+?()[]{}|/" {
+		es = append(es, esc{bs + string(c), c})
+	}
+	for _, c := range "tnvfr0" {
+		es = append(es, esc{bs + string(c), map[rune]rune{'t': 9, 'n': 10, 'v': 11, 'f': 12, 'r': 13, '0': 0}[c]})
+	}
+	var singles []string
+	top := rune(0x180)
+	if thorough {
+		top = 0x3000
+	}
+	for c := rune(0); c < top; c++ {
+		singles = append(singles, string(c))
+	}
+	for _, c := range []rune{0x7ff, 0x800, 0xfff, 0x1000, 0x2027, 0x2028, 0x2029, 0x202a, 0xd7ff, 0xe000, 0xfeff, 0xfffd, 0xfffe, 0xffff, 0x10000, 0x10001, 0x1f600, 0x20000, 0xfffff, 0x100000, 0x10fffe, 0x10ffff} {
+		singles = append(singles, string(c))
+	}
+	var out []escCase
+	for _, e := range es {
+		near := []rune{e.v, '0', '1', 1, 'a', 'x', 'u', 'c', '{', '}'}
+		if e.v > 0 {
+			near = append(near, e.v-1)
+		}
+		if e.v < 0x10ffff {
+			near = append(near, e.v+1)
+		}
+		for _, d := range e.text[1:] {
+			near = append(near, d)
+		}
+		subs := append([]string{""}, singles...)
+		for _, a := range near {
+			if a >= 0xd800 && a <= 0xdfff {
+				continue
+			}
+			for _, b := range near {
+				if b >= 0xd800 && b <= 0xdfff {
+					continue
+				}
+				subs = append(subs, string(a)+string(b))
+				if a == e.v && b == e.v {
+					subs = append(subs, string(a)+string(b)+string(b), string(a)+"0"+string(b))
+				}
+			}
+		}
+		t := e.text
+		out = append(out, escCase{
+			pats: []string{"^" + t + "$", "^[" + t + "]$", "^" + t + "{2}$", "^[^" + t + "]$", "^[" + t + "-" + t + "]$", "^[" + bs + "x00-" + t + "]$", "^[" + t + "-" + bs + "u{10FFFF}]$", "^(?:" + t + "0)+$", "^[a" + t + "0]{2}$", t + "+"},
+			subs: subs,
+		})
+	}
+	return out
+}
+
 type kase struct {
 	Pattern   string `json:"pattern"`
 	Subject   string `json:"subject_quoted"`
@@ -305,6 +387,28 @@ func main() {
 	}
 	close(jobs)
 	wg.Wait()
+	sweep := escapeSweep(r.Thorough())
+	var sweepPats int64
+	sjobs := make(chan escCase, 64)
+	for w := 0; w < runtime.NumCPU(); w++ {
+		wg.Add(1)
+		go func() {
+			defer wg.Done()
+			for c := range sjobs {
+				for _, p := range c.pats {
+					judgePattern(r, p, c.subs, st)
+					atomic.AddInt64(&sweepPats, 1)
+				}
+			}
+		}()
+	}
+	for _, c := range sweep {
+		sjobs <- c
+	}
+	close(sjobs)
+	wg.Wait()
+	r.Set("escape_sweep_escapes", len(sweep))
+	r.Set("escape_sweep_patterns", sweepPats)
 	if done < int64(len(pats)) {
 		r.NotExhaustive(fmt.Sprintf("internal deadline %s reached after %d of %d patterns (shortest first)", budget, done, len(pats)))
 	}
@@ -336,5 +440,5 @@ func main() {
 	}
 	r.Assume("oracle: internal/ecma reference matcher (ECMA-262 pattern semantics over code points, no Annex B); alarm only when regexp2 ECMAScript|Unicode agrees with it against ogen",
 		"patterns outside the portable grammar (reference reports a syntax error: Annex-B-only forms, named groups) are only checked for String()==source and for never running look-around/back-references on RE2")
-	r.Finish(fmt.Sprintf("patterns: level %d = all single terms (%d atoms x %d quantifiers), two-term sequences (quick: 4 quantifiers on the first term, none on the second; thorough: all on the first, 3 on the second), thorough adds three-term sequences and alternations over 21 interaction-heavy atoms; each short pattern also wrapped as ^p$, ^(?:p)$, p|b, (?:p)+, (p)*b. subjects: all strings of <= %d code points over 26 symbols (<= 3 for patterns of <= 6 bytes). One evaluation = (pattern, subject); all distinct; non-trivial = evaluated by both the reference and ogen.", level, len(atomsList()), len(quants), subjLen))
+	r.Finish(fmt.Sprintf("patterns: level %d = all single terms (%d atoms x %d quantifiers), two-term sequences (quick: 4 quantifiers on the first term, none on the second; thorough: all on the first, 3 on the second), thorough adds three-term sequences and alternations over 21 interaction-heavy atoms; each short pattern also wrapped as ^p$, ^(?:p)$, p|b, (?:p)+, (p)*b. subjects: all strings of <= %d code points over 26 symbols (<= 3 for patterns of <= 6 bytes). Escape sweep: every \\cX (52), \\xHH (all 256, both hex cases), \\uHHHH and \\u{H} for 0..FF and 19 boundary code points up to U+10FFFF, every identity and control escape, each in 10 contexts (alone, in a class, negated, quantified, as both ends of a range, repeated group, mixed class), against every single code point < U+0180 (thorough: < U+3000) and 22 boundary code points, plus all pairs over the neighbours of its value and the characters of its own spelling. One evaluation = (pattern, subject); all distinct; non-trivial = evaluated by both the reference and ogen.", level, len(atomsList()), len(quants), subjLen))
 }
